@@ -225,6 +225,6 @@ for _k, _fs in STEP_FILES.items():
     PROPS[_k]["extra_files"] = PROPS[_k]["extra_files"] + ["proofs/steps/%s.v" % f for f in _fs]
 
 # property-level statements about the bodies translated from the source (props/src/Cxx.v)
-for _k in ("C02", "C03", "C04", "C05", "C06", "C07", "C08", "C10", "C13", "C14", "C16", "C18"):
+for _k in ("C02", "C03", "C04", "C05", "C06", "C07", "C08", "C09", "C10", "C13", "C14", "C16", "C18"):
     PROPS[_k]["prop_files"] = list(PROPS[_k]["prop_files"]) + ["props/src/%s.v" % _k]
 
